@@ -9,6 +9,7 @@ copy, to look for false alarms.
   refactor_variants.py params    - rename parameters that are never passed by keyword
   refactor_variants.py logging   - add _LOGGER.debug(...) at the top of every function and loop body
   refactor_variants.py fstrings  - turn simple str.format calls into f-strings
+  refactor_variants.py flip      - a < b  ->  b > a for every single ordering comparison
   refactor_variants.py reorder   - sort runs of consecutive function definitions by name
   refactor_variants.py temps     - bind return values and comparison tests to
                                    temporaries first
@@ -259,6 +260,18 @@ class FStrings(ast.NodeTransformer):
         return ast.copy_location(ast.JoinedStr(values=parts), node)
 
 
+class FlipCompare(ast.NodeTransformer):
+    """a < b -> b > a (and <=, >, >=) for single comparisons: same meaning."""
+    FLIP = {ast.Lt: ast.Gt, ast.Gt: ast.Lt, ast.LtE: ast.GtE, ast.GtE: ast.LtE}
+
+    def visit_Compare(self, node):
+        self.generic_visit(node)
+        if len(node.ops) == 1 and type(node.ops[0]) in self.FLIP:
+            node.left, node.comparators[0] = node.comparators[0], node.left
+            node.ops = [self.FLIP[type(node.ops[0])]()]
+        return node
+
+
 def reorder_functions(tree):
     """Sort every run of consecutive function definitions (module level and
     class bodies) by name: definition order of functions does not matter."""
@@ -293,6 +306,9 @@ def transform(path, mode):
         ast.fix_missing_locations(tree)
     if 'fstrings' in mode:
         tree = FStrings().visit(tree)
+        ast.fix_missing_locations(tree)
+    if 'flip' in mode:
+        tree = FlipCompare().visit(tree)
         ast.fix_missing_locations(tree)
     if 'reorder' in mode:
         tree = reorder_functions(tree)
